@@ -220,8 +220,9 @@ func eqF(a, b, tol float64) bool {
 // ---- 1. character counts ------------------------------------------------------------------------
 
 type countCase struct {
-	Ali gen.Ali  `json:"ali"`
-	F   *formula `json:"formula,omitempty"` // a tall or long alignment given by formula instead of Ali
+	Ali  gen.Ali   `json:"ali"`
+	F    *formula  `json:"formula,omitempty"` // a tall or long alignment given by formula instead of Ali
+	Plan *gen.Plan `json:"plan,omitempty"`    // the object is obtained through this chain of operations (gen.BuildVia)
 }
 
 func naiveCounts(cells []byte) map[uint8]int {
@@ -235,7 +236,7 @@ func naiveCounts(cells []byte) map[uint8]int {
 func checkCounts(c countCase) (o pbt.Outcome, err error) {
 	a := resolve(c.Ali, c.F)
 	sizeClass(&o, c.F)
-	return countsOn(gen.MustBuild(a), a, o)
+	return countsOn(buildVia(a, c.Plan, &o), a, o)
 }
 
 // countsOn judges the character counts of the alignment object al, whose content is a
@@ -362,15 +363,16 @@ func TestCounts(t *testing.T) {
 			return countCase{Ali: gen.Ali{Alphabet: f.Alphabet}, F: f}
 		}
 		a, _ := genAli(t, true, 1)
-		return countCase{Ali: a}
+		return countCase{Ali: a, Plan: maybePlan(t, a)}
 	}, checkCounts)
 }
 
 // ---- 2. majority / consensus -----------------------------------------------------------------------
 
 type majCase struct {
-	Ali gen.Ali  `json:"ali"`
-	F   *formula `json:"formula,omitempty"`
+	Ali  gen.Ali   `json:"ali"`
+	F    *formula  `json:"formula,omitempty"`
+	Plan *gen.Plan `json:"plan,omitempty"` // the object is obtained through this chain of operations (gen.BuildVia)
 }
 
 // majoritySite: the reference decision for one column
@@ -445,7 +447,7 @@ func checkMajority(c majCase) (o pbt.Outcome, err error) {
 	if c.F != nil {
 		reps = 6
 	}
-	return majorityOn(gen.MustBuild(a), a, reps, o)
+	return majorityOn(buildVia(a, c.Plan, &o), a, reps, o)
 }
 
 func majorityOn(al align.Alignment, a gen.Ali, reps int, o pbt.Outcome) (pbt.Outcome, error) {
@@ -543,18 +545,19 @@ func TestMajority(t *testing.T) {
 			return majCase{Ali: gen.Ali{Alphabet: f.Alphabet}, F: f}
 		}
 		a, _ := genAli(t, true, 1)
-		return majCase{Ali: a}
+		return majCase{Ali: a, Plan: maybePlan(t, a)}
 	}, checkMajority)
 }
 
 // ---- 3. site measures (upper-case input) --------------------------------------------------------------
 
 type siteCase struct {
-	Ali    gen.Ali  `json:"ali"`
-	F      *formula `json:"formula,omitempty"`
-	Pseudo float64  `json:"pseudocount"`
-	Log    bool     `json:"log"`
-	Norm   int      `json:"normalization"` // 0 none, 1 frequency, others: error expected
+	Ali    gen.Ali   `json:"ali"`
+	F      *formula  `json:"formula,omitempty"`
+	Plan   *gen.Plan `json:"plan,omitempty"`
+	Pseudo float64   `json:"pseudocount"`
+	Log    bool      `json:"log"`
+	Norm   int       `json:"normalization"` // 0 none, 1 frequency, others: error expected
 }
 
 func naiveEntropy(cells []byte, removeGaps bool) float64 {
@@ -594,7 +597,7 @@ func alphabetChars(alpha string) string {
 func checkSiteMeasures(c siteCase) (o pbt.Outcome, err error) {
 	a := resolve(c.Ali, c.F)
 	sizeClass(&o, c.F)
-	return siteMeasuresOn(gen.MustBuild(a), a, c, o)
+	return siteMeasuresOn(buildVia(a, c.Plan, &o), a, c, o)
 }
 
 func siteMeasuresOn(al align.Alignment, a gen.Ali, c siteCase, o pbt.Outcome) (pbt.Outcome, error) {
@@ -807,7 +810,7 @@ func TestSiteMeasures(t *testing.T) {
 			c = siteCase{Ali: gen.Ali{Alphabet: f.Alphabet}, F: f}
 		} else {
 			a, _ := genAli(t, false, 1)
-			c = siteCase{Ali: a}
+			c = siteCase{Ali: a, Plan: maybePlan(t, a)}
 		}
 		c.Pseudo = rapid.SampledFrom([]float64{0, 0, 0.5, 1, 2.25}).Draw(t, "pseudo")
 		c.Log = rapid.Bool().Draw(t, "log")
